@@ -1097,7 +1097,7 @@ def lemma_is_same_file(ctx):
         nm = "C03: is_same_file resolves the destination through symbolic links (stat): a destination that is a link to the source is the source"
         dst_l = [e for e in stats if e.name == "Path::symlink_metadata" and getattr(e.args[0], "name", "") == "dst_path"]
         (ctx.fail if dst_l else ctx.passed)(nm, str(names))
-        failed = [e for e in stats if e.ret == "err"]
+        failed = [e for e in stats if e.ret in ("err", "absent")]
         if failed:
             (ctx.passed if is_err(p.ret) else ctx.fail)("C03/C04: a path that cannot be examined makes is_same_file fail (never 'different')", str(names))
             continue
